@@ -3,7 +3,7 @@ from propdefs.common import *
 PROP = {
     "bin": "c03",
     "coq_targets": ["theories/Isa/C03Check"],
-    "n": {"quick": 1500, "thorough": 16000},
+    "n": {"quick": 1200, "thorough": 16000},
     "theorems": ["run_graph_straight", "tie_transfers",
                  "addsub_imm_sim", "addsub_shift_sim", "mov_reg_sim", "mov_wide_sim",
                  "adds_imm_sim", "adds_shift_sim", "subs_imm_sim_partial", "subs_shift_sim_partial", "subs_carry_refuted", "ldr_imm_sim", "str_imm_sim", "ldst_ord_sim", "stp_sim", "ldp_sim", "ldst_imm_sim", "ldpsw_sim", "ldst_reg_sim",
@@ -25,19 +25,20 @@ PROP = {
                     "instruction address + 4 < 2^64"],
     "partial": [
         "theorem [U] + syntactic tie per enumerated word: ADD/SUB and ADDS immediate (incl. MOV to/from SP); ADD/SUB and ADDS shifted register LSL/LSR; "
-        "MOV register (ORR alias); MOV wide / inverted wide (MOVZ/MOVN aliases); LDR/LDRB/LDRH/LDRSB/LDRSH/LDRSW and STR/STRB/STRH in the unsigned-offset "
-        "and unscaled forms; LDAR/LDLAR/STLR/STLLR(+B/H); B, BL, BR, BLR, RET, B.cond, CBZ/CBNZ, TBZ/TBNZ",
-        "partial theorem [U] (everything but C, and c = NOT C proved) + refutation witness: SUBS immediate, SUBS shifted register LSL/LSR",
-        "syntactic tie (mirror = dumped IL) + sampled-state comparison only, no theorem yet: add/sub/adds/subs shifted register ASR/ROR; add/sub/adds/subs "
-        "extended register; loads/stores with pre/post-index write-back, register offset (all extends), pairs LDP/STP/LDPSW/LDNP/STNP",
+        "MOV register (ORR alias); MOV wide / inverted wide (MOVZ/MOVN aliases); every single-register load/store LDR/LDRB/LDRH/LDRSB/LDRSH/LDRSW/STR/STRB/STRH "
+        "in all addressing modes (unsigned offset, unscaled, pre-index, post-index, register offset with UXTW/LSL/SXTW/SXTX); LDAR/LDLAR/STLR/STLLR(+B/H); "
+        "LDP/STP/LDNP/STNP (32/64-bit) and LDPSW in all modes; B, BL, BR, BLR, RET, B.cond, CBZ/CBNZ, TBZ/TBNZ",
+        "partial theorem [U] (sim_c true: everything but C agrees, and c = NOT C is proved) + refutation witness subs_carry_refuted: SUBS immediate, SUBS shifted register LSL/LSR",
+        "syntactic tie (mirror = dumped IL) + sampled-state comparison only, no theorem: add/sub/adds/subs with ASR/ROR shifted-register operands; "
+        "add/sub/adds/subs extended register (all eight extends)",
         "accepted by the lifter, outside the listed integer classes, neither theorem nor comparison: SIMD&FP register loads/stores (ldr/str b/h/s/d/q), NOP, PRFM, STLUR* ",
         "known finding kf:subs-carry-is-borrow: every accepted SUBS sets c = 'a borrow occurred' (Arm ARM: C = NOT borrow); fixing it needs the unedited test subs_xn to change",
-        "the decoder's field ranges (0 <= rn < 32, ...) are hypotheses of the theorems; Isa/A64.decode produces them by construction (bits = mod) but this is not proved",
+        "the decoder's field ranges (0 <= rn < 32, option<1> = 1, ...) are hypotheses of the theorems; Isa/A64.decode produces them by construction (bits = mod) but this is not proved",
     ],
-    "level_text": "Unbounded Coq theorems for 20 instruction forms (all register/immediate fields, all addresses, all states): running the Gallina mirror of the "
+    "level_text": "Unbounded Coq theorems (27 in Props/C03.v; all register/immediate fields, all addresses, all states) for the instruction forms listed first under partial: running the Gallina mirror of the "
                   "AArch64 builders in the reference IL semantics yields the X0-X30/SP, NZCV, memory and next pc of a Gallina transcription of the Arm ARM "
                   "pseudocode; a kernel-evaluated syntactic tie (mirror(decoded word) = IL dumped by the real translate_block) transfers them to every enumerated "
-                  "encoding. All other listed forms (ASR/ROR and extended-register operands, write-back and register-offset addressing, pairs) are covered by the same tie plus an in-kernel comparison of "
+                  "encoding. The remaining listed forms (ASR/ROR and extended-register operands of add/sub, and the C flag of SUBS - a known finding) are covered by the same tie plus an in-kernel comparison of "
                   "the dumped IL against the specification on sampled boundary states.",
     "level_note": "Trusted: Coq kernel + vm_compute; the transcription of the Arm ARM (Isa/A64.v); Exec/Sem.v; the harness printer. The decoder bad64 is not trusted "
                   "beyond the enumerated words: its operand presentation is re-checked against the mirror on every run.",
